@@ -157,9 +157,19 @@ def handle_quic_packet(packet: Packet, keylog, quic_sessions: list[QuicSession],
             case _:
                 quic_version = QuicVersion.UNKNOWN
 
+    # packets on the path a session was first seen on belong to that session; the connection ID they carry was chosen by
+    # their receiver (RFC 9000 5.1), which also tells how long it is in a short header
     for session in quic_sessions:
-        # first try matching connection IDs
-        # a zero-length connection ID identifies nothing: such packets are matched by address and port below
+        if session.matches_session_dgram(packet.ip_src, packet.ip_dst, packet.sport, packet.dport):
+            if header_type != QuicHeaderType.LONG:
+                from_client = packet.ip_src == session.client_ip and packet.sport == session.client_port
+                receiver_cids = session.server_cids if from_client else session.client_cids
+                dcid = max((c for c in receiver_cids if c and c == packet_payload[1:1 + len(c)]), key=len, default=b"")
+            session.handle_packet(packet, dcid, quic_version)
+            return
+
+    # other paths (connection migration): match by connection ID; a zero-length connection ID identifies nothing
+    for session in quic_sessions:
         if header_type == QuicHeaderType.LONG:
             if dcid and (dcid in session.client_cids or dcid in session.server_cids):
                 session.handle_packet(packet, dcid, quic_version)
@@ -170,11 +180,6 @@ def handle_quic_packet(packet: Packet, keylog, quic_sessions: list[QuicSession],
                 if cid and cid == packet_payload[1:1 + len(cid)]:
                     session.handle_packet(packet, cid, quic_version)
                     return
-
-        # check matching ip address and port for zero length cids
-        if session.matches_session_dgram(packet.ip_src, packet.ip_dst, packet.sport, packet.dport):
-            session.handle_packet(packet, dcid, quic_version)
-            return
 
     if header_type != QuicHeaderType.SHORT:
         new_session = QuicSession(packet, server_ports, keylog, portmap, keep_original_ports)
